@@ -464,6 +464,112 @@ pub fn offsets(tr: &mut Tr, rng: &mut SmallRng, codes: &[CodeSpec], per_code: us
     }
 }
 
+fn edge_values(c: &CodeSpec) -> Vec<u64> {
+    let mut v: Vec<u64> = vec![0, 1, 2, 3];
+    for i in [7u32, 8, 15, 16, 31, 32, 33, 47, 48, 61, 62, 63] {
+        let p = 1u64 << i;
+        v.push(p - 1);
+        v.push(p);
+        v.push(p + 1);
+    }
+    for d in 0..4u64 {
+        v.push(u64::MAX - d);
+    }
+    if c.f == Fam::MinBin || c.f == Fam::Golomb {
+        v.push(c.b.wrapping_sub(1));
+        v.push(c.b / 2);
+    }
+    v.sort();
+    v.dedup();
+    v.into_iter().filter(|x| in_domain(c, *x) && unary_part(c, *x) <= 300).collect()
+}
+
+/// every code x edge values: written alone (bytes, returned length), read back with every option, lengths
+pub fn edges(tr: &mut Tr, rng: &mut SmallRng, codes: &[CodeSpec], st: &mut Stats) {
+    let rcfgs = all_rcfgs();
+    for c in codes {
+        let vals = edge_values(c);
+        for le in [false, true] {
+            tr.reset();
+            let w = WRITER_WORDS[rng.random_range(0..WRITER_WORDS.len())];
+            let mut tw = TW::new(tr, &wcfg(le, w, "vec"), 0);
+            let mut starts: Vec<u64> = vec![];
+            let mut total = 0u64;
+            for &v in &vals {
+                for opt in write_opts(c) {
+                    if tw.dead {
+                        break;
+                    }
+                    starts.push(total);
+                    if let Out::Ok(k) = tw.write_code(tr, c, opt, v) {
+                        total += k as u64;
+                    }
+                    st.tests += 1;
+                }
+                st.distinct.insert((c.f, c.k, c.b, v));
+            }
+            if tw.dead {
+                continue;
+            }
+            tw.write_bits(tr, 1, 1);
+            tw.close(tr, "flush");
+            let mut img = tw.w.image();
+            while img.len() % 8 != 0 {
+                img.push(0);
+            }
+            let cands: Vec<&RCfg> = rcfgs.iter().filter(|r| r.le == le).collect();
+            let rcfg = cands[rng.random_range(0..cands.len())];
+            let mut rd = TRd::new(tr, rcfg, &img);
+            let ropts = read_opts(c, rcfg);
+            for (i, _) in starts.iter().enumerate() {
+                if rd.dead {
+                    break;
+                }
+                rd.read_code(tr, c, ropts[i % ropts.len()]);
+                st.tests += 1;
+            }
+            rd.drop_obj(tr);
+        }
+        for &v in &vals {
+            emit_lens(tr, c, v);
+        }
+    }
+}
+
+/// gamma, delta, zeta3: every value up to past the table limits with every write option; lengths
+pub fn enc_tables(tr: &mut Tr, rng: &mut SmallRng, shard: usize, nshards: usize, st: &mut Stats) {
+    let codes = [CodeSpec::simple(Fam::Gamma), CodeSpec::simple(Fam::Delta), CodeSpec::k(Fam::Zeta, 3)];
+    for (ci, c) in codes.iter().enumerate() {
+        for (li, le) in [false, true].into_iter().enumerate() {
+            if (2 * ci + li) % nshards != shard {
+                continue;
+            }
+            tr.reset();
+            let w = WRITER_WORDS[rng.random_range(0..WRITER_WORDS.len())];
+            let mut tw = TW::new(tr, &wcfg(le, w, "vec"), 0);
+            for v in 0..1100u64 {
+                for opt in write_opts(c) {
+                    if tw.dead {
+                        break;
+                    }
+                    tw.write_code(tr, c, opt, v);
+                    if !tw.dead {
+                        tw.flush(tr);
+                    }
+                    st.tests += 1;
+                }
+                st.distinct.insert((c.f, c.k, c.b, v));
+                if li == 0 {
+                    emit_lens(tr, c, v);
+                }
+            }
+            if !tw.dead {
+                tw.close(tr, "drop");
+            }
+        }
+    }
+}
+
 pub fn run(tr: &mut Tr, seed: u64, mode: &str, full: bool, shard: usize, nshards: usize) -> (u64, u64) {
     let mut rng = SmallRng::seed_from_u64(seed ^ 0x434f);
     let codes: Vec<CodeSpec> = all_codes(full).into_iter().enumerate().filter(|(i, _)| i % nshards == shard).map(|(_, c)| c).collect();
@@ -475,6 +581,10 @@ pub fn run(tr: &mut Tr, seed: u64, mode: &str, full: bool, shard: usize, nshards
         }
         "concat" => concat(tr, &mut rng, &codes, if full { 1024 } else { 100 }, if full { 6 } else { 2 }, &mut st),
         "offsets" => offsets(tr, &mut rng, &codes, if full { 4 } else { 1 }, &mut st),
+        // every code at the edges of its domain (largest values, powers of two near 2^63 / 2^64)
+        "edges" => edges(tr, &mut rng, &codes, &mut st),
+        // every entry of the encoding / length tables (gamma, delta, zeta3), every option
+        "enc_tables" => enc_tables(tr, &mut rng, shard, nshards, &mut st),
         m => panic!("unknown mode {}", m),
     }
     (st.tests, st.distinct.len() as u64)
